@@ -42,10 +42,11 @@ class Stream:
 class Leaf:
     """bookkeeping record of one atomic field (for tables, tiling checks and dependency sets)"""
 
-    __slots__ = ("path", "pos", "width", "codec", "chain")
+    __slots__ = ("path", "pos", "width", "codec", "chain", "off", "value")
 
-    def __init__(self, path, pos, width, codec, chain):
+    def __init__(self, path, pos, width, codec, chain, off=None, value=None):
         self.path, self.pos, self.width, self.codec, self.chain = path, pos, width, codec, chain
+        self.off, self.value = off, value
 
 
 class Parser:
@@ -57,8 +58,16 @@ class Parser:
         self.enum_mode = enum_mode  # "known": precondition code ∈ table (assumed) · "fork": explore the other-code case
         self.enum_other = enum_other  # path of the one enum field whose code is assumed NOT to be in the table
         self.enum_fields = []
+        self.unchecked = 0  # > 0 while inside a fixed-size Struct whose total size was already checked
 
     # -- helpers ----------------------------------------------------------------------------------
+    def note_leaf(self, leaf):
+        self.leaves.append(leaf)
+        self.it.__dict__.setdefault("all_leaves", []).append(leaf)
+
+    def note_span(self, path, start, end, con):
+        self.it.__dict__.setdefault("spans", []).append((path, self.file_off(start), self.file_off(end), con))
+
     def add(self, a, b):
         if is_concrete_int(a) and is_concrete_int(b):
             return a + b
@@ -89,16 +98,23 @@ class Parser:
         if isinstance(e, (int,)):
             return e
         if callable(e):
-            return e(ctx)
+            # a plain callable in a declaration (lambda ctx: ..., a helper function): repo code -> interpreted
+            return self.it.call(self.it.wrap(e), [ctx], {})
         raise Unsupported(f"construct expression {type(e).__name__}")
 
     def need(self, pos, width, what):
         """a read of `width` bytes at stream position pos: StreamError unless it fits"""
         lim = self.stream.limit
-        if lim is None:
+        if lim is None or self.unchecked:
             return
         end = as_int_term(self.add(pos, width))
         ok = end <= as_int_term(lim)
+        if getattr(self.it, "assume_available", False):
+            # precondition of the run: the file holds the complete records (truncation is C18's subject)
+            if not z3.is_true(z3.simplify(ok)):
+                self.it.path.assume(ok)
+                self.it.path.__dict__.setdefault("wf_assumptions", []).append(("file-long-enough", what, ok))
+            return
         if not self.it.path.entails(ok):
             if not self.it.truth(mk_bool(ok)):
                 raise C.StreamError(f"stream read less than specified amount ({what})")
@@ -110,17 +126,35 @@ class Parser:
         if isinstance(con, C.Renamed):
             return self.parse(con.subcon, pos, ctx, path + ((con.name,) if con.name else ()), chain)
         if isinstance(con, C.Struct):
+            pos0 = pos
             obj = C.Container()
             obj["_io"] = "<stream>"
             sub = C.Container()
             sub["_"] = ctx
             sub["_io"] = "<stream>"
-            for sc in con.subcons:
-                v, pos = self.parse(sc, pos, sub, path, ())
-                name = getattr(sc, "name", None)
-                if name:
-                    obj[name] = v
-                    sub[name] = v
+            # a Struct of static size: one availability check for the whole struct (construct reads field by
+            # field and raises StreamError at the first short field: same outcome, same set of inputs)
+            static = None
+            if not self.unchecked and self.stream.limit is not None:
+                try:
+                    static = con.sizeof()
+                except Exception:
+                    static = None
+            if static is not None:
+                self.need(pos, static, ".".join(map(str, path)) or "struct")
+                self.unchecked += 1
+            try:
+                for sc in con.subcons:
+                    v, pos = self.parse(sc, pos, sub, path, ())
+                    name = getattr(sc, "name", None)
+                    if name:
+                        obj[name] = v
+                        sub[name] = v
+            finally:
+                if static is not None:
+                    self.unchecked -= 1
+            if self.record_leaves and len(path) <= 2:
+                self.note_span(path, pos0, pos, con)
             return obj, pos
         if isinstance(con, C.Array):
             return self.parse_array(con, pos, ctx, path)
@@ -140,7 +174,7 @@ class Parser:
             off = self.file_off(pos)
             v = Sym(TXT(z3_of(self.stream.fid), as_int_term(off), as_int_term(n)), str, tag=path)
             if self.record_leaves:
-                self.leaves.append(Leaf(path, pos, n, "text:" + con.encoding, chain))
+                self.note_leaf(Leaf(path, pos, n, "text:" + con.encoding, chain, off, v))
             return v, self.add(pos, n)
         if isinstance(con, C.Enum):
             v, pos2 = self.parse(con.subcon, pos, ctx, path, chain + (("Enum", dict(con.encmapping)),))
@@ -149,7 +183,10 @@ class Parser:
         if isinstance(con, C.Adapter):
             raw, pos2 = self.parse(con.subcon, pos, ctx, path, chain + ((type(con).__name__, _adapter_info(con)),))
             dec = it.getattr(con, "_decode")
-            return it.call_merged(dec, [raw, ctx, "(parsing)"], {}), pos2
+            val = it.call_merged(dec, [raw, ctx, "(parsing)"], {}, wellformed=".".join(map(str, path)))
+            if self.record_leaves:
+                it.__dict__.setdefault("decoded", {})[path] = val
+            return val, pos2
         if isinstance(con, C.FormatField):
             w = con.length
             if con.fmtstr not in (">B", ">H", ">L", ">Q", ">I"):
@@ -158,14 +195,18 @@ class Parser:
             off = self.file_off(pos)
             t = BEU(z3_of(self.stream.fid), as_int_term(off), z3.IntVal(w))
             it.path.assume(z3.And(t >= 0, t < 2 ** (8 * w)))
+            v = Sym(t, int, tag=path)
             if self.record_leaves:
-                self.leaves.append(Leaf(path, pos, w, "uint:" + con.fmtstr, chain))
-            return Sym(t, int, tag=path), self.add(pos, w)
+                self.note_leaf(Leaf(path, pos, w, "uint:" + con.fmtstr, chain, off, v))
+            hook = getattr(it, "on_leaf", None)
+            if hook is not None:
+                hook(path, v, off)
+            return v, self.add(pos, w)
         if isinstance(con, C.Bytes):
             n = self.tr(con.length, ctx) if isinstance(con.length, ExprMixin) or callable(con.length) else con.length
             self.need(pos, n, ".".join(map(str, path)))
             if self.record_leaves:
-                self.leaves.append(Leaf(path, pos, n, "bytes", chain))
+                self.note_leaf(Leaf(path, pos, n, "bytes", chain, self.file_off(pos), None))
             return SymBytes(self.stream.fid, self.file_off(pos), n), self.add(pos, n)
         if con is C.Tell or isinstance(con, type(C.Tell)):
             return pos, pos
@@ -182,12 +223,15 @@ class Parser:
     def parse_array(self, con, pos, ctx, path):
         it = self.it
         cnt = con.count
-        cnt = self.tr(cnt, ctx) if isinstance(cnt, ExprMixin) or callable(cnt) else cnt
+        cnt = self.tr(cnt, ctx) if not isinstance(cnt, Sym) and (isinstance(cnt, ExprMixin) or callable(cnt)) else cnt
         if is_concrete_int(cnt):
             out = C.ListContainer()
+            pos0 = pos
             for i in range(cnt):
                 v, pos = self.parse(con.subcon, pos, ctx, path + (i,), ())
                 out.append(v)
+            if self.record_leaves and len(path) <= 2:
+                self.note_span(path, pos0, pos, con)
             return out, pos
         n = as_int_term(cnt)
         if not it.path.entails(n >= 0):
@@ -206,7 +250,7 @@ class Parser:
         total = mk_int(n * esize)
         self.need(pos, total, ".".join(map(str, path)))
         if self.record_leaves:
-            self.leaves.append(Leaf(path, pos, total, f"array[{esize}]", (("count", cnt),)))
+            self.note_leaf(Leaf(path, pos, total, f"array[{esize}]", (("count", cnt),), self.file_off(pos), None))
         outer = self
 
         def elem(i):
@@ -216,6 +260,8 @@ class Parser:
             v, _ = prs.parse(con.subcon, p_i, ctx, path + ("[k]",), ())
             return v
 
+        if self.record_leaves and len(path) <= 2:
+            self.note_span(path, pos, self.add(pos, total), con)
         return SymSeq(cnt, elem, C.ListContainer, note="Array:" + ".".join(map(str, path))), self.add(pos, total)
 
     def decode_enum(self, con, v, path=()):
@@ -263,3 +309,18 @@ def parse_record(it, con, fid=100, base=0, pos=0, limit=None, ctx=None, enum_mod
     root["_"] = ctx
     v, end = p.parse(con, pos, root if ctx is None else ctx)
     return v, end, p.leaves
+
+
+# ---------------------------------------------------------------------------------------------------
+# Construct.parse(<symbolic bytes>) in interpreted repo code -> symbolic parse of the live declaration
+# ---------------------------------------------------------------------------------------------------
+def _construct_parse(it, con, a, k):
+    from .absobj import SymBytes
+
+    data = a[0] if a else k.get("data")
+    if not isinstance(data, SymBytes):
+        return NotImplemented
+    v, end, leaves = parse_record(it, con, fid=data.fid, base=data.off, pos=0, limit=data.length)
+    it.__dict__.setdefault("parsed_records", []).append({"con": con, "base": data.off, "limit": data.length,
+                                                         "end": end, "leaves": leaves, "value": v})
+    return v
